@@ -340,18 +340,20 @@ def parse2 (env : Env) (bs : Bytes) : Res := parseG codec2 env bs
 
 /-! ## the encoders -/
 
-/-- decimal digits of a natural number (`to_string`), most significant first -/
-def decAux : Nat → Nat → Bytes → Bytes
-  | 0, _, acc => acc
-  | f + 1, n, acc => if n < 10 then (48 + n) :: acc else decAux f (n / 10) ((48 + n % 10) :: acc)
+/-- decimal digits of a natural number, least significant first (`fuel` > n suffices) -/
+def decRev : Nat → Nat → Bytes
+  | 0, _ => []
+  | f + 1, n => if n < 10 then [48 + n] else (48 + n % 10) :: decRev f (n / 10)
 
-def dec (n : Nat) : Bytes := decAux (n + 1) n []
+/-- `usize::to_string` / `u64::to_string`: decimal digits, most significant first -/
+def dec (n : Nat) : Bytes := (decRev (n + 1) n).reverse
 
 /-- `i64::to_string` -/
 def showInt (n : Int) : Bytes := if n < 0 then 45 :: dec n.natAbs else dec n.toNat
 
 def crlf : Bytes := [13, 10]
 
+mutual
 /-- encoder 2, `RespParser::encode`: builds a fresh vector per node and concatenates -/
 def encode2 : Val → Bytes
   | .simple s => 43 :: s ++ crlf
@@ -360,8 +362,14 @@ def encode2 : Val → Bytes
   | .nullBulk => [36, 45, 49, 13, 10]
   | .bulk b => 36 :: dec b.length ++ crlf ++ b ++ crlf
   | .nullArray => [42, 45, 49, 13, 10]
-  | .array a => 42 :: dec a.length ++ crlf ++ (a.map encode2).flatten
+  | .array a => 42 :: dec a.length ++ crlf ++ encode2List a
+/-- `for element in elements { result.extend_from_slice(&Self::encode(element)) }` -/
+def encode2List : List Val → Bytes
+  | [] => []
+  | v :: vs => encode2 v ++ encode2List vs
+end
 
+mutual
 /-- encoders 1 and 3 (`RespCodec::encode_into`, `encode_resp_into`): append to a buffer.
     (Their source text is the same up to the value type; `opt-itoa-encode` is off.) -/
 def encodeInto : Val → Bytes → Bytes
@@ -371,7 +379,12 @@ def encodeInto : Val → Bytes → Bytes
   | .nullBulk, buf => buf ++ [36, 45, 49, 13, 10]
   | .bulk b, buf => buf ++ [36] ++ dec b.length ++ crlf ++ b ++ crlf
   | .nullArray, buf => buf ++ [42, 45, 49, 13, 10]
-  | .array a, buf => a.foldl (fun acc v => encodeInto v acc) (buf ++ [42] ++ dec a.length ++ crlf)
+  | .array a, buf => encodeIntoList a (buf ++ [42] ++ dec a.length ++ crlf)
+/-- `for elem in elements { Self::encode_into(elem, buf) }` -/
+def encodeIntoList : List Val → Bytes → Bytes
+  | [], buf => buf
+  | v :: vs, buf => encodeIntoList vs (encodeInto v buf)
+end
 
 def encode1 (v : Val) : Bytes := encodeInto v []
 def encode3 (v : Val) : Bytes := encodeInto v []
@@ -450,9 +463,40 @@ def LengthsSane (c : Codec) : Bytes → Bool
   | [] => true
   | b :: rest => headerSane c (b :: rest) && LengthsSane c rest
 
+mutual
 /-- array nesting depth of a value (frames needed to decode it) -/
 def Val.depth : Val → Nat
-  | .array a => 1 + (a.map (fun v => v.depth)).foldl max 0
+  | .array a => 1 + Val.depthList a
   | _ => 1
+def Val.depthList : List Val → Nat
+  | [] => 0
+  | v :: vs => max v.depth (Val.depthList vs)
+end
+
+/-- a simple-string / error line survives the trip through codec `c`: it is found again as one
+    line (codec 1: contains no CR; codec 2: contains no CR LF pair) and the codec's string
+    conversion leaves it alone (codec 2: it is valid UTF-8) -/
+def lineSafe (c : Codec) (s : Bytes) : Bool :=
+  c.findCrlf (s ++ [13, 10]) == some s.length && c.str s == s
+
+/-- the array pre-allocation for `k` elements is granted -/
+def fits (c : Codec) (mem : Nat) (k : Nat) : Bool :=
+  decide (preReq c (k : Int) ≤ isizeMax) && (decide (preReq c (k : Int) < mem) || preReq c (k : Int) == 0)
+
+mutual
+/-- values that re-decode to themselves under codec `c` with allocation limit `mem`: line-safe
+    strings, integers that are `i64`s, arrays whose pre-allocation is granted -/
+def Val.wf (c : Codec) (mem : Nat) : Val → Bool
+  | .simple s => lineSafe c s
+  | .error s => lineSafe c s
+  | .int n => decide (-9223372036854775808 ≤ n) && decide (n ≤ 9223372036854775807)
+  | .nullBulk => true
+  | .bulk _ => true
+  | .nullArray => true
+  | .array a => fits c mem a.length && Val.wfList c mem a
+def Val.wfList (c : Codec) (mem : Nat) : List Val → Bool
+  | [] => true
+  | v :: vs => v.wf c mem && Val.wfList c mem vs
+end
 
 end RedisVerif.Resp
